@@ -1691,6 +1691,37 @@ pub(crate) fn reftest_lsp(src: &str) {
     }
 }
 
+/// Batch evaluator for the position conversion helpers, used by the
+/// external verification harness.
+#[cfg(wilfred_garden_verif)]
+pub(crate) fn verif_positions(src: &str, req: &serde_json::Value) -> serde_json::Value {
+    let mut out = serde_json::json!({});
+    if let Some(offsets) = req["offsets"].as_array() {
+        let mut res = vec![];
+        for o in offsets {
+            let offset = o.as_u64().unwrap_or(0) as usize;
+            let clamped = offset.min(src.len());
+            let line_number = src[..clamped].matches('\n').count();
+            let p = offset_to_lsp_position(src, offset, line_number);
+            let back = line_char_to_offset(src, p.line as usize, p.character as usize);
+            res.push(serde_json::json!({"offset": offset, "line": p.line, "character": p.character, "back": back}));
+        }
+        out["offsets"] = serde_json::json!(res);
+    }
+    if let Some(points) = req["points"].as_array() {
+        let mut res = vec![];
+        for pt in points {
+            let line = pt[0].as_u64().unwrap_or(0) as usize;
+            let character = pt[1].as_u64().unwrap_or(0) as usize;
+            res.push(serde_json::json!({"line": line, "character": character, "offset": line_char_to_offset(src, line, character)}));
+        }
+        out["points"] = serde_json::json!(res);
+    }
+    let r = whole_document_range(src);
+    out["whole"] = serde_json::json!([r.start.line, r.start.character, r.end.line, r.end.character]);
+    out
+}
+
 #[cfg(test)]
 mod tests {
     use super::*;
